@@ -38,6 +38,29 @@ from werkzeug.exceptions import ClientDisconnected, RequestEntityTooLarge
 from werkzeug.sansio import utils as _sutils
 from werkzeug.wrappers import Request
 
+# The one check that fails on the unchanged tree (/repo at 2980781); this text is what bounded/FINDINGS_C09.md
+# is meant to hold.
+FINDINGS = r"""
+gis_terminated_false  (get_input_stream / Request.stream, 3045 of the 3654 combinations with the key set to False)
+   get_input_stream tests `"wsgi.input_terminated" in environ`, not the value.  A server that sets the key to False
+   (= "I do not terminate my input") is treated as one that does:
+   * environ = {"wsgi.input": BytesIO(b"wxyz-and-the-next-request"), "wsgi.input_terminated": False}, no
+     CONTENT_LENGTH, safe_fallback=True, no maximum -> the raw stream is returned, .read() yields all 25 bytes
+     (on a socket: an endless read).  Expected by the statement ("a request with no usable length on a server that
+     does not terminate its input gets an empty stream"): an empty stream, nothing consumed.  Same through
+     Request(environ).stream.
+   * with max_content_length=3 and CONTENT_LENGTH "4"... unaffected (413 first); with a valid CONTENT_LENGTH and the
+     key False the Content-Length limit is dropped in favour of the raw stream / the maximum.
+   Domain: the quantifier lists "wsgi.input_terminated" as a dimension without naming values; absent and True pass for
+   every combination.  No server is known to send False, so this is an interpretation-dependent, low-severity finding:
+   either read the flag's truth value (`environ.get("wsgi.input_terminated")`) or record/drop this check name.  It has
+   its own name so that doing so does not weaken `gis`.
+Oracle decisions without failures: a read attempted at a *reached* maximum is RequestEntityTooLarge even when the body
+is exactly the maximum (telling the two apart needs a read past the maximum, which the statement forbids);
+exhaust() at the limit returns b"" without raising; CONTENT_LENGTH tolerates surrounding white space and clamps
+"-n" to 0; Transfer-Encoding is "chunked" only when spelled exactly so (DESIGN section 8).
+"""
+
 RULE = ("LimitedStream / get_input_stream: bytes yielded are exactly the prefix of what was sent, never more than "
         "the limit is requested or consumed from the source, short body => ClientDisconnected, over maximum => "
         "RequestEntityTooLarge, no other exception, no hang; reference model + source-log invariants")
@@ -404,8 +427,8 @@ OPS_LS_FULL = (("read", 1), ("read", 2), ("read", 3), ("read", -1), ("readall",)
                ("readinto", 1), ("readinto", 3), ("readinto_mv", 2), ("readline", -1), ("readline", 2),
                ("readlines", -1), ("readlines", 2), ("next",), ("iter",))
 # depth-3 alphabet of the quick tier (one representative per operation kind)
-OPS_LS_CORE = (("read", 1), ("read", 2), ("read", -1), ("exhaust",), ("readinto", 3), ("readinto_mv", 2),
-               ("readline", -1), ("readline", 2), ("readlines", -1), ("next",))
+OPS_LS_CORE = (("read", 1), ("read", 2), ("read", -1), ("exhaust",), ("readinto", 3), ("readline", -1),
+               ("readlines", -1), ("next",))
 OPS_LS_BIG = (("read", 5), ("read", 70000), ("readinto", 8), ("readinto_mv", 7), ("readline", 4), ("readlines", 5))
 
 
@@ -848,8 +871,8 @@ def run(tier, seed, reg=None):
         seq_words = (f"every sequence of 1..2 operations out of {len(OPS_LS_FULL)} and every sequence of 3 out of "
                      f"{len(OPS_LS_CORE)}")
     else:
-        nmax, npat, ks = 6, 3, (1, 2, 3, None)
-        call_faults += [("call", e, st) for e in (3, 5) for st in (False, True)]
+        nmax, npat, ks = 6, 2, (1, 2, 3, None)
+        call_faults += [("call", 3, st) for st in (False, True)]
         sq = list(itertools.product(OPS_LS_FULL, repeat=3))
         seq_words = f"every sequence of 1..3 operations out of {len(OPS_LS_FULL)}"
     cfgs = ls_configs(nmax, npat, ks, call_faults)
@@ -868,9 +891,10 @@ def run(tier, seed, reg=None):
         b2 = list(itertools.product(OPS_WRAP_BUF, repeat=2))
         b3 = list(itertools.product(OPS_WRAP_BUF, repeat=3))
         t3 = list(itertools.product(OPS_WRAP_TEXT, repeat=3))
-        stacks = [(("buf", 1), b3), (("buf", 2), b3), (("buf", 3), b3), (("buf", 8), b3), (("buf", 4), b2),
-                  (("buf", 8192), b2), (("text", 2), t3), (("text", 8192), t3), (("textraw",), t3)]
-        wrap_words = "every sequence of 1..3 operations (1..2 for buffer sizes 4 and 8192)"
+        t2 = list(itertools.product(OPS_WRAP_TEXT, repeat=2))
+        stacks = [(("buf", 1), b3), (("buf", 2), b3), (("buf", 8), b3), (("buf", 3), b2), (("buf", 4), b2),
+                  (("buf", 8192), b2), (("text", 2), t3), (("text", 8192), t2), (("textraw",), t3)]
+        wrap_words = "every sequence of 1..3 operations (1..2 for buffer sizes 3, 4, 8192 and text over 8192)"
     wcfgs = wrap_configs(wn, npat, wks)
     witems = [(cfg, st, sq_) for cfg in wcfgs for (st, sq_) in stacks]
     for ch in _chunks(witems, 96 if not thorough else 512):
